@@ -15,7 +15,7 @@ RULE = ('grammar family: abstract target Shape over every non-empty ordered subs
         'builtin else "Unknown object", several -> "not unique". distinct = (variant, model shape); non-trivial = model has '
         'same-named objects of unrelated classes or a nested definition')
 REQUIRED = {'models': 300, 'references_resolved': 1500, 'unknown_object_errors': 30, 'not_unique_errors': 20,
-            'builtin_resolutions': 20, 'nonconforming_same_name': 100, 'grammar_variants': 10, 'list_references': 200}
+            'builtin_resolutions': 20, 'nonconforming_same_name': 100, 'grammar_variants': 10, 'list_references': 200, 'models_with_numeric_names': 100}
 
 CONCRETE = ['Circle', 'Square', 'Wire']
 KW = {'Circle': 'circle', 'Square': 'square', 'Wire': 'wire', 'Other': 'other'}
@@ -29,8 +29,8 @@ def variants():
     return out
 
 
-def grammar(sub):
-    return '''
+def grammar(sub, numeric=False):
+    g = '''
 Model: (defs+=Def | groups+=Group | refs+=Ref)*;
 Def: Shape | %s Other;
 Shape: %s;
@@ -41,23 +41,33 @@ Other: 'other' name=ID;
 Group: 'group' name=ID '{' (defs+=Def | groups+=Group)* '}';
 Ref: 'ref' name=ID ('shape' s=[Shape] | 'circle' c=[Circle] | 'wire' w=[Wire] | 'list' l+=[Shape][','] | 'other' o=[Other]);
 ''' % (''.join(c + ' | ' for c in CONCRETE if c not in sub), ' | '.join(sub))
+    if numeric:
+        # objects named by numbers: the name and the reference text are converted by the INT match rule
+        for c in ('circle', 'square', 'wire', 'other'):
+            g = g.replace("'%s' name=ID;" % c, "'%s' name=INT;" % c)
+        for t in ('Shape', 'Circle', 'Wire', 'Other'):
+            g = g.replace('[%s]' % t, '[%s|INT]' % t)
+    return g
+
+
+NUM = {'a': '1', 'b': '2', 'c': '3', 'd': '4', 'e': '5', 'z': '26'}
 
 
 _mms = {}
 
 
-def get_mm(sub, builtins_spec):
+def get_mm(sub, builtins_spec, numeric=False):
     """metamodels are kept alive and reused so that many variants coexist in the process"""
     from textx import metamodel_from_str
-    key = (sub, builtins_spec)
+    key = (sub, builtins_spec, numeric)
     if key not in _mms:
         if len(_mms) > 200:
             _mms.clear()
-        g = grammar(sub)
+        g = grammar(sub, numeric)
         builtins = {}
         if builtins_spec:
             helper = metamodel_from_str(g)
-            bm = helper.model_from_str(' '.join('%s %s' % (KW[c], n) for n, c in builtins_spec))
+            bm = helper.model_from_str(' '.join('%s %s' % (KW[c], NUM[n] if numeric else n) for n, c in builtins_spec))
             for d in bm.defs:
                 builtins[d.name] = d
         _mms[key] = metamodel_from_str(g, builtins=builtins) if builtins else metamodel_from_str(g)
@@ -73,6 +83,15 @@ def one(ctx, i, rep=None):
     ctx.maxc('max_variant_index', vs.index(sub))
     conform = {'Shape': set(sub), 'Circle': {'Circle'}, 'Wire': {'Wire'}, 'Other': {'Other'}}
     names = ['a', 'b', 'c', 'd', 'e']
+    numeric = (i % 4 == 3)
+    if numeric:
+        ctx.count('models_with_numeric_names')
+
+    def sp(n):
+        return NUM[n] if numeric else n
+
+    def logical(v):
+        return {int(x): k for k, x in NUM.items()}.get(v, v) if numeric else v
     # ---- definitions: (class, name, path)
     defs = []
     text = []
@@ -88,7 +107,7 @@ def one(ctx, i, rep=None):
                 c = r.choice(CONCRETE + ['Other'])
                 n = r.choice(names)
                 defs.append((c, n, path))
-                out += '%s %s ' % (KW[c], n)
+                out += '%s %s ' % (KW[c], sp(n))
         return out
     body = gen_defs(0, [])
     # make names unique per conforming set unless we want an ambiguity: drop exact duplicates (class, name)
@@ -99,7 +118,7 @@ def one(ctx, i, rep=None):
     if r.random() < 0.4:
         bspec = tuple(sorted((r.choice(names + ['z']), r.choice(CONCRETE + ['Other'])) for _ in range(r.randint(1, 3))))
         bspec = tuple(dict(bspec).items())
-    mm = get_mm(sub, bspec)
+    mm = get_mm(sub, bspec, numeric)
     builtins = {n: c for n, c in bspec}
 
     def candidates(name, target):
@@ -133,10 +152,10 @@ def one(ctx, i, rep=None):
             # list of good references
             more = [g for g in good if g[1] == 'Shape'][:r.randint(1, 3)]
             lst = [(name, o)] + [(g[3], g[4]) for g in more]
-            rtext += 'ref r%d list %s\n' % (nref, ' , '.join(x[0] for x in lst))
+            rtext += 'ref r%d list %s\n' % (nref, ' , '.join(sp(x[0]) for x in lst))
             refs.append(('l', lst))
         else:
-            rtext += 'ref r%d %s %s\n' % (nref, kw, name)
+            rtext += 'ref r%d %s %s\n' % (nref, kw, sp(name))
             refs.append((attr, [(name, o)]))
         nref += 1
     expect_err = None
@@ -144,9 +163,9 @@ def one(ctx, i, rep=None):
         attr, target, kw, name, o = bad[0]
         if attr == 'l':
             pre = [g for g in good if g[1] == 'Shape'][:r.randint(0, 2)]
-            rtext += 'ref r%d list %s\n' % (nref, ' , '.join([g[3] for g in pre] + [name]))
+            rtext += 'ref r%d list %s\n' % (nref, ' , '.join([sp(g[3]) for g in pre] + [sp(name)]))
         else:
-            rtext += 'ref r%d %s %s\n' % (nref, kw, name)
+            rtext += 'ref r%d %s %s\n' % (nref, kw, sp(name))
         expect_err = (o[0], name, target)
     text = body + '\n' + rtext
     wit = {'grammar_shape_alternatives': list(sub), 'model': text, 'builtins': list(bspec)}
@@ -164,10 +183,10 @@ def one(ctx, i, rep=None):
             return
         kind, name, target = expect_err
         if kind == 'unknown':
-            ok = 'Unknown object "%s" of class "%s"' % (name, target) in msg and getattr(e, 'err_type', None) == 'Unknown object'
+            ok = 'Unknown object "%s" of class "%s"' % (sp(name), target) in msg and getattr(e, 'err_type', None) == 'Unknown object'
             ctx.count('unknown_object_errors')
         else:
-            ok = 'name %s is not unique' % name in msg
+            ok = 'name %s is not unique' % sp(name) in msg
             ctx.count('not_unique_errors')
         if not ok:
             ctx.violation(None, 'expected a %s error for %r (target %s), got: %s' % (kind, name, target, msg[:140]), wit, rep)
@@ -185,7 +204,7 @@ def one(ctx, i, rep=None):
 
     def collect(container, path):
         for d in getattr(container, 'defs', []):
-            objs.setdefault((type(d).__name__, d.name, tuple(path)), []).append(d)
+            objs.setdefault((type(d).__name__, logical(d.name), tuple(path)), []).append(d)
         for g in getattr(container, 'groups', []):
             collect(g, path + [g.name])
     collect(m, [])
@@ -208,7 +227,7 @@ def one(ctx, i, rep=None):
                     return
             else:
                 ctx.count('builtin_resolutions')
-                if g is not mm.builtins[name]:
+                if g is not mm.builtins[int(sp(name)) if numeric else name]:
                     ctx.violation(None, 'reference %r should resolve to the builtin entry, got %s %r' % (
                         name, type(g).__name__, getattr(g, 'name', None)), wit, rep)
                     return
